@@ -210,6 +210,28 @@ impl Check for CrossCheck {
                 }
             }
         }
+        {
+            // the names of the run under each naming it uses: distinct names must be distinct slots
+            let mut names = std::collections::BTreeSet::new();
+            for t in &terms {
+                t.all_names(&mut names);
+            }
+            let names: Vec<S> = names.into_iter().collect();
+            for kind in [run.get("naming"), run.get("naming_b")] {
+                if let Some((a, b, x)) = Naming::collision(kind.rem_euclid(NAMING_KINDS as i64) as u32, &names) {
+                    out.violations.push(Violation {
+                        property: prop.into(),
+                        clause: "renaming_is_injective".into(),
+                        kind: "mismatch".into(),
+                        sig: "renaming_is_injective".into(),
+                        triggers: vec![],
+                        detail: format!("naming {kind}: the distinct names of the abstract slots ${a} and ${b} denote one slot {x:?}: the injective renaming of the history is not injective any more"),
+                        at_op: 0,
+                    });
+                    return out;
+                }
+            }
+        }
         let mut qrng = Rng::stream(run.get("oracle_seed") as u64, "oracle-sampling");
         let queries = make_queries(&terms, &mut qrng, 150);
         let base_hash = run.get("hash_seed") as u64;
